@@ -4,7 +4,7 @@
    exceptions the code does not catch, so the statements below are real. *)
 From Coq Require Import NArith ZArith List Bool Arith.
 From XV Require Import Base.Str Base.Eqb Base.PyInt Model.Bind Model.Parser Model.ParserCorr Spec.Inject
-  Proofs.ParserWitness.
+  Proofs.ParserWitness Proofs.ParserDoc.
 Import ListNotations.
 
 (* FULL statement: for EVERY stream of parser events the outcome is documented.  Refuted, one
@@ -44,3 +44,48 @@ Theorem C15_outcome_documented_refuted_unbalanced :
   exists cfg c u root d, parse cfg c u root d = Err PyIndexError.
 Proof. do 5 eexists. exact (proj1 w_end_without_start). Qed.
 Print Assumptions C15_outcome_documented_refuted_unbalanced.
+
+(* GUARDED statement: one clause per refutation above, plus the well-formedness of the metadata
+   the real XmlContext exports (kinds of the variables in each table of XmlMeta, one role per
+   field name, every referenced class has metadata) -- evaluated in Coq on every exported
+   universe by ./check C15.  `d` ranges over ALL event streams: not well nested beyond clause 5,
+   not fitting the model, unknown names, wrong root, bad xsi:type / xsi:nil, unconvertible text. *)
+Theorem C15_outcome_documented : forall n cfg c u root d,
+  wf_universe u = true -> root_ok u root = true ->
+  all_required_have_defaults cfg = true ->     (* 1: every init field has a default *)
+  xsi_types_ok c d = true ->                   (* 2: no xsi:type naming a datatype with a bytes wrapper class *)
+  tails_blank d = true ->                      (* 3: no character data after a child element *)
+  init_fields_only u = true ->                 (* 4: wildcard / attributes fields are init fields *)
+  well_nested d = true ->                      (* 5: no `end` without an open element *)
+  outcome_documented (parse_n n cfg c u root d) = true.
+Proof. intros. apply outcome_documented_main; assumption. Qed.
+Print Assumptions C15_outcome_documented.
+
+(* non-vacuity: real exported metadata (model `wildtail`: class-typed child, list of int,
+   wildcard) and a stream with an unknown element, a misplaced end name, an unconvertible
+   value and a duplicated child satisfy every guard; the outcome is a documented error *)
+Definition reject_all : conv :=
+  mk_conv (fun _ _ _ _ => None) (fun _ _ => []) (fun _ _ => false) (fun _ => ([], false)) (fun _ => None).
+Definition d_nonvacuous : list pevent :=
+  [PStart [87] [] []; PStart [99] [([118]%N, [113]%N)] []; PEnd [99] None None;
+   PStart [100] [] []; PEnd [120] (Some [49;50;120]%N) None;
+   PStart [99] [] []; PEnd [99] None None;
+   PStart [122;122] [] []; PEnd [122;122] None None; PEnd [87] None None].
+Example C15_guard_nonvacuous :
+  wf_universe u_wildtail = true /\ root_ok u_wildtail (Some root_wildtail) = true
+  /\ all_required_have_defaults (cfg_of true false true nodefault_wildtail) = true
+  /\ xsi_types_ok reject_all d_nonvacuous = true /\ tails_blank d_nonvacuous = true
+  /\ init_fields_only u_wildtail = true /\ well_nested d_nonvacuous = true
+  /\ parse (cfg_of true false true nodefault_wildtail) reject_all u_wildtail (Some root_wildtail) d_nonvacuous = Err ParserError.
+Proof. repeat split; vm_compute; reflexivity. Qed.
+
+(* the exported universes of the witness models violate exactly the clause they refute *)
+Example C15_guard_clauses_separate :
+  all_required_have_defaults (cfg_of false false false nodefault_required) = false
+  /\ xsi_types_ok (conv_of_table tbl_bytes_wrapper_empty) ev_bytes_wrapper_empty = false
+  /\ tails_blank ev_tail_none_qname = false
+  /\ init_fields_only u_noinitwild = false
+  /\ well_nested ev_end_without_start = false
+  /\ wf_universe u_required = true /\ wf_universe u_anytype = true /\ wf_universe u_wildtail = true
+  /\ wf_universe u_noinitwild = true /\ wf_universe u_scalarwild = true.
+Proof. repeat split; vm_compute; reflexivity. Qed.
